@@ -332,6 +332,17 @@ class Site:
 
 
 @dataclass
+class Growth:
+    """Something that carries text captured by a group was put into a heap container while a loop over matches was running."""
+
+    target: "Node"
+    stack: tuple  # ((FuncInfo, statement or comprehension element), ...) outermost first
+    atoms: frozenset  # group atoms (not read out of a mapping) of what was stored, keys and values
+    loop: ast.AST
+    key: AV = None  # type: ignore[assignment]
+
+
+@dataclass
 class Frame:
     fi: FuncInfo | None
     mod: ModuleInfo
@@ -403,6 +414,11 @@ class Interp:
         self.steps = 0
         self.fold_lists = self.content.concrete
         self.globals_store: dict = {}
+        # ---- bookkeeping for C06.R5 (who collects the declarations, and under which conditions)
+        self.tests: dict = {}  # id(test expression) -> [(what, tested value, containers)]: None-tests, truthiness, membership tests
+        self.growths: dict = {}  # (id(statement / comprehension element), id(target node)) -> Growth
+        self.match_loops: list = []  # loops / comprehensions over the matches of a pattern that are being executed
+        self._cur: list = []  # (function, statement) pairs being executed, outermost first
 
     # ------------------------------------------------------------------ heap
     def node(self, key, make):
@@ -437,7 +453,28 @@ class Interp:
             return ref(self.node(("lib", name), lambda: Lib(("lib", name), name)))
         return ref(self.memo(("lib", name, recv), lambda: Lib(("lib", name, recv), name, recv)))
 
+    def note_test(self, e: ast.AST, what: str, av: AV, container: AV | None = None) -> None:
+        if self.recording:
+            self.tests.setdefault(id(e), []).append((what, av, container))
+
+    def note_growth(self, target: "Node", *avs: "AV | None") -> None:
+        if not self.match_loops or not self.recording or not self._cur:
+            return
+        atoms = frozenset(a for av in avs if av is not None for a in self.flat_prov(av) if a and a[0] == "g")
+        if not atoms:
+            return
+        k = (id(self._cur[-1][1]), id(target))
+        g = self.growths.get(k)
+        if g is None:
+            self.growths[k] = Growth(target, tuple(self._cur), atoms, self.match_loops[-1], avs[0] if isinstance(target, Dict) and avs[0] is not None else BOT)
+        else:
+            g.atoms |= atoms
+
+    def is_match_iter(self, av: AV) -> bool:
+        return any(isinstance(n, Seq) and len(n.key) > 2 and isinstance(n.key[2], tuple) and n.key[2] and n.key[2][0] in ("finditer", "findall") for n in av.refs)
+
     def grow_elem(self, s: Seq, av: AV) -> None:
+        self.note_growth(s, av)
         av = av.plain()
         new = join(s._elem, av)
         if new != s._elem:
@@ -445,6 +482,7 @@ class Interp:
             self.version += 1
 
     def grow_dict(self, d: Dict, k: AV | None, v: AV | None) -> None:
+        self.note_growth(d, k, v)
         if k is not None:
             new = join(d.k, k.plain())
             if new != d.k:
@@ -648,10 +686,13 @@ class Interp:
         self.steps += 1
         if self.steps > 400000:
             raise AnalysisError("abstract interpretation of the parsing pipeline exceeds its step budget")
+        self._cur.append((fr.fi, s))
         try:
             return self._stmt(s, env, fr)
         except _Dead:
             return None
+        finally:
+            self._cur.pop()
 
     def _stmt(self, s: ast.stmt, env: dict, fr: Frame) -> dict | None:
         if isinstance(s, ast.Expr):
@@ -834,6 +875,7 @@ class Interp:
         elem = self.iterate(itv, ("loop", fr.ctx, id(s)), fr, s.iter)
         env_in = dict(env)
         breaks = []
+        over_matches = self.is_match_iter(itv)
         if elem.bottom and not elem.prov:
             # nothing known to iterate over: body not reachable in this round of the global fixpoint
             out_env = env_in
@@ -843,7 +885,13 @@ class Interp:
                 fr.loops.append(lp)
                 e = dict(env_in)
                 self.assign(s.target, elem, e, fr, s, None)
-                out = self.block(s.body, e, fr)
+                if over_matches:
+                    self.match_loops.append(s)
+                try:
+                    out = self.block(s.body, e, fr)
+                finally:
+                    if over_matches:
+                        self.match_loops.pop()
                 fr.loops.pop()
                 breaks = lp.breaks
                 new_in = join_env(env_in, out, *lp.continues)
@@ -1303,6 +1351,7 @@ class Interp:
             op, left, right = e.ops[0], e.left, e.comparators[0]
             if isinstance(op, (ast.Is, ast.IsNot, ast.Eq, ast.NotEq)) and isinstance(right, ast.Constant) and right.value is None:
                 av = self.ev(left, env, fr)
+                self.note_test(e, "is-none" if isinstance(op, (ast.Is, ast.Eq)) else "is-not-none", av)
                 is_none = av.maybe_none() or av.bottom
                 not_none = av.top or bool(av.refs) or any(c.v is not None for c in av.consts) or av.bottom
                 facts = [("absent",) + av.look] if av.look is not None else []
@@ -1317,6 +1366,7 @@ class Interp:
             if isinstance(op, (ast.In, ast.NotIn)):
                 lv = self.ev(left, env, fr)
                 rv = self.ev(right, env, fr)
+                self.note_test(e, "in" if isinstance(op, ast.In) else "not-in", lv, rv)
                 dicts = frozenset(n.d if isinstance(n, View) else n for n in rv.refs if isinstance(n, Dict) or (isinstance(n, View) and n.kind == "keys"))
                 if dicts:
                     a = [("absent", dicts, norm(left))]
@@ -1348,6 +1398,7 @@ class Interp:
                 return t, f, [("present",) + v.look], [("absent",) + v.look]
             return t, f, [], []
         av = self.ev(e, env, fr)
+        self.note_test(e, "truthy", av)
         t, f = self.truth(av)
         ft, ff = [], []
         if av.look is not None:
@@ -1698,12 +1749,15 @@ class Interp:
         items = self.unrolled(g.iter, itv)
         elems = items if items is not None else [self.iterate(itv, ("comp", token, id(g)), fr, g.iter)]
         base_ctx = fr.ctx
+        over_matches = self.is_match_iter(itv)
         for i_, el in enumerate(elems):
             if el.bottom and not el.prov:
                 continue
             e2 = dict(env)
             if items is not None:
                 fr.ctx = base_ctx + (("it", id(g), i_),)
+            if over_matches:
+                self.match_loops.append(g)
             try:
                 self.assign(g.target, el, e2, fr, g, None)
                 n = len(fr.facts)
@@ -1720,6 +1774,8 @@ class Interp:
                 del fr.facts[n:]
             finally:
                 fr.ctx = base_ctx
+                if over_matches:
+                    self.match_loops.pop()
 
     def _comp(self, e, env, fr, kind):
         s = self.seq(fr, e, kind)
@@ -1755,7 +1811,14 @@ class Interp:
                 for o in out:
                     self.grow_elem(s, o)
                 return ref(s)
-        self._generators(e.generators, dict(env), fr, (fr.ctx, id(e)), lambda e2: self.grow_elem(s, self.ev(e.elt, e2, fr)))
+        def body(e2):
+            self._cur.append((fr.fi, e.elt))  # the element's own path condition includes the comprehension's filters
+            try:
+                self.grow_elem(s, self.ev(e.elt, e2, fr))
+            finally:
+                self._cur.pop()
+
+        self._generators(e.generators, dict(env), fr, (fr.ctx, id(e)), body)
         return ref(s)
 
     def e_ListComp(self, e, env, fr):
@@ -1773,9 +1836,13 @@ class Interp:
             d.fields = {}
 
         def body(e2):
-            k = self.ev(e.key, e2, fr)
-            v = self.ev(e.value, e2, fr)
-            self.grow_dict(d, k, v)
+            self._cur.append((fr.fi, e.value))
+            try:
+                k = self.ev(e.key, e2, fr)
+                v = self.ev(e.value, e2, fr)
+                self.grow_dict(d, k, v)
+            finally:
+                self._cur.pop()
             self.event("comp", frozenset({d}), k, norm(e.key), v, fr, e)
 
         self._generators(e.generators, dict(env), fr, (fr.ctx, id(e)), body)
